@@ -362,6 +362,11 @@ Loop:
 							node = result
 						} else {
 							_, path = pop(path)
+							// removing the root leaves nothing to traverse (the
+							// loop guard at the bottom is not reached by continue)
+							if sstack == nil {
+								break Loop
+							}
 							continue
 						}
 					}
